@@ -131,8 +131,9 @@ def finish(prop, tier, rules, explanation, assumptions, trusted_base, t0, extra=
         "wall_s": round(time.time() - t0, 2),
         "violations": len(findings),
     }
-    os.makedirs(os.path.join(ROOT, "evidence", "reports"), exist_ok=True)
-    with open(os.path.join(ROOT, "evidence", "%s.json" % prop), "w") as f:
+    evdir = os.environ.get("VERIF_EVIDENCE_DIR") or os.path.join(ROOT, "evidence")
+    os.makedirs(os.path.join(evdir, "reports"), exist_ok=True)
+    with open(os.path.join(evdir, "%s.json" % prop), "w") as f:
         json.dump(ev, f, indent=1, default=str)
     for r in rules:
         print(r.line())
@@ -142,7 +143,7 @@ def finish(prop, tier, rules, explanation, assumptions, trusted_base, t0, extra=
         print("KNOWN-FINDING: property=%s %s" % (prop, kk.get("what", f.message)))
     if findings:
         rp = os.path.join("evidence", "reports", "%s-1.json" % prop)
-        with open(os.path.join(ROOT, rp), "w") as f:
+        with open(os.path.join(evdir, "reports", "%s-1.json" % prop), "w") as f:
             json.dump({"property": prop, "tier": tier, "findings": [x.as_dict() for x in findings]}, f, indent=1,
                       default=str)
         for x in findings[:25]:
